@@ -26,6 +26,7 @@ inductive Call where
   | write (o : Obj)
   | fsync (o : Obj)
   | rename                      -- rename(tmp, log)
+  | renameLock                  -- rename(anything, lock): the name of the lock file given to another file
   | truncate (o : Obj)          -- ftruncate
   | unlink (o : Obj)
   | close (o : Obj)
@@ -35,6 +36,12 @@ inductive Call where
 /-- does this call change the log (its bytes or which file the name points to)? -/
 def mutatesLog : Call → Bool
   | .write .log | .rename | .truncate .log | .unlink .log => true
+  | _ => false
+
+/-- does this call give the lock's *name* to another file, or take it away?  Two processes are excluded from one another only as long as
+    `.ergo/lock` names one and the same file for both: a missing lock file may be created (`open … O_CREAT`), never replaced or removed -/
+def mutatesLock : Call → Bool
+  | .renameLock | .unlink .lock | .truncate .lock => true
   | _ => false
 
 /-- does this call look at the log's content? -/
@@ -82,6 +89,7 @@ def bodyOK (ins : List Call) : Bool :=
 
 /-- a writer that got the lock -/
 def writerOK (p : List Call) : Bool :=
+  !p.any mutatesLock &&
   match split p with
   | none => false
   | some s =>
@@ -91,12 +99,12 @@ def writerOK (p : List Call) : Bool :=
 
 /-- a writer that found the lock taken: it neither reads nor changes anything -/
 def busyOK (p : List Call) : Bool :=
-  p.contains (.flockEx false) && !p.contains (.flockEx true) &&
+  !p.any mutatesLock && p.contains (.flockEx false) && !p.contains (.flockEx true) &&
   !p.any (fun c => mutatesLog c || readsLog c || c == .write .tmp || c == .flockUn)
 
 /-- a reader: no lock call at all, the log opened exactly once read-only, nothing changed -/
 def readerOK (p : List Call) : Bool :=
-  !p.any isLock && !p.contains .flockUn &&
+  !p.any mutatesLock && !p.any isLock && !p.contains .flockUn &&
   (p.filter (· == .openRO .log)).length ≤ 1 && !p.contains .openAppend && !p.contains .openTmp &&
   !p.any (fun c => mutatesLog c || c == .write .tmp || c == .write .lock)
 
